@@ -201,30 +201,30 @@ Section CtorNames.
   Lemma group_new_name_survives v pre bs w data :
     valid_str v -> joinable_free v = true ->
     enc v = Some data -> dec data = Some v ->
-    write_name_part enc pre (group_new_rec v) = Ok (bs, w) ->
+    write_name_part enc pre (group_new_rec_orig v) = Ok (bs, w) ->
     exists r, read_name_part dec bs = Ok r /\ get_name r = v.
   Proof.
     intros Hv Hj He Hd Hw.
-    destruct (read_write_name_part enc dec pre (group_new_rec v) bs w data He Hd Hv Hw) as [A _].
-    eexists. split; [exact A|]. cbn [get_name rec_luni group_new_rec option_map].
+    destruct (read_write_name_part enc dec pre (group_new_rec_orig v) bs w data He Hd Hv Hw) as [A _].
+    eexists. split; [exact A|]. cbn [get_name rec_luni group_new_rec_orig option_map].
     now rewrite join_units_id.
   Qed.
 
   Lemma frompil_name_survives v pre bs w data :
     enc v = Some data -> dec data = Some v ->
-    write_name_part enc pre (frompil_rec v) = Ok (bs, w) ->
+    write_name_part enc pre (frompil_rec_orig v) = Ok (bs, w) ->
     exists r, read_name_part dec bs = Ok r /\ get_name r = v.
   Proof.
     intros He Hd Hw.
-    destruct (read_write_name_part enc dec pre (frompil_rec v) bs w data He Hd I Hw) as [A _].
+    destruct (read_write_name_part enc dec pre (frompil_rec_orig v) bs w data He Hd I Hw) as [A _].
     eexists. split; [exact A|]. reflexivity.
   Qed.
 End CtorNames.
 
 Lemma ctor_name_save_refuted_lemma :
   exists v, scalar_str v /\ Z.of_nat (length v) < 256 /\
-    forall pre, write_name_part macroman_enc pre (group_new_rec v) = Err ValueErr /\
-                write_name_part macroman_enc pre (frompil_rec v) = Err ValueErr.
+    forall pre, write_name_part macroman_enc pre (group_new_rec_orig v) = Err ValueErr /\
+                write_name_part macroman_enc pre (frompil_rec_orig v) = Err ValueErr.
 Proof.
   exists [0x416]. split; [repeat constructor|]. split; [cbn; lia|]. intros pre. split; reflexivity.
 Qed.
@@ -234,4 +234,26 @@ Lemma name_save_other_encoding_refuted_lemma :
     forall pre, write_name_part ascii_enc pre r' = Err ValueErr.
 Proof.
   exists [0xE9]. eexists. split; [repeat constructor|]. split; [reflexivity|]. intros pre. reflexivity.
+Qed.
+
+(* the constructors after cc4d99c apply the rule of the setter *)
+Lemma ctor_rec_is_set_name em v r : ctor_rec em v = set_name em v r.
+Proof. reflexivity. Qed.
+
+Lemma ctor_name_survives_macroman_lemma v r' pre :
+  valid_str v -> joinable_free v = true -> 0 <= pre ->
+  ctor_rec macroman_enc v = Ok r' ->
+  exists bs w r'', write_name_part macroman_enc pre r' = Ok (bs, w) /\
+                   read_name_part macroman_dec bs = Ok r'' /\ get_name r'' = v.
+Proof.
+  intros Hv Hj Hpre Hc.
+  rewrite (ctor_rec_is_set_name macroman_enc v {| rec_name := []; rec_luni := None |}) in Hc.
+  exact (name_survives_save_open_macroman_lemma v _ r' pre Hv Hj Hpre Hc).
+Qed.
+
+Lemma ctor_name_total_lemma em v : Z.of_nat (length v) < 256 ->
+  exists r', ctor_rec em v = Ok r' /\ get_name r' = v /\ (em v = None -> rec_name r' = [63]).
+Proof.
+  intros H. rewrite (ctor_rec_is_set_name em v {| rec_name := []; rec_luni := None |}).
+  now apply name_keeps_unicode_lemma.
 Qed.
